@@ -18,16 +18,39 @@ WRAPS = ["coap_ticks", "coap_socket_send", "coap_socket_recv", "gnutls_handshake
          "gnutls_psk_set_server_credentials_function", "gnutls_psk_set_client_credentials_function",
          "coap_handle_dgram", "coap_dtls_handle_timeout", "coap_retransmit"]
 
-LOSSFREE_KINDS = ("cred/", "sched/plain", "sched/queue3", "sched/queue-mid", "sched/after", "sched/nstart2")
+LOSSFREE_KINDS = ("sni-history", "cred/", "sched/plain", "sched/queue3", "sched/queue-mid", "sched/after", "sched/nstart2")
 
 
 def evaluate(run, model, drv, cases, lines):
     """run the C driver, the acceptor and the oracle on the cases; returns a list of
     (index, tag, what, no_input) for everything that failed"""
-    outs, crashes = vlib.run_lines_robust(drv, lines, timeout=900)
+    outs0, crashes = vlib.run_lines_robust(drv, lines, timeout=900)
     fails = []
     for i, rc, err in crashes:
         fails.append((i, "crash", "driver crashed (rc=%d) on a C19 case: %s" % (rc, err[-200:].replace("\n", " ")), False))
+    # a case with K ops is a history of client sessions on one server context: every client is
+    # judged with its own credentials (index = index of the whole case, for the replay)
+    orig_cases, cases, outs, back = cases, [], [], []
+    sni_lines, sni_obs, sni_idx = [], [], []
+    late = []          # failures already indexed by whole case
+    for i, (c, o) in enumerate(zip(orig_cases, outs0)):
+        if o.startswith("CRASH") or o.startswith("<not") or o.startswith("ERROR"):
+            cases.append(c); outs.append(o); back.append(i)
+            continue
+        ph = gen_tls.split_phases(c, o)
+        for pc, po in ph:
+            cases.append(pc); outs.append(po); back.append(i)
+        if len(ph) > 1 and c.ssni is not None:
+            reached = [(pc, po) for pc, po in ph if " s.ck:0" in po]
+            if reached:
+                sni_lines.append("tgsni %s %s" % (gen_tls.tbl(c.ssni), " ".join(gen_tls.hx(pc.csni or b"") for pc, _ in reached)))
+                sni_obs.append(" ".join("miss" if " s.sni:" in po else "hit" for _, po in reached))
+                sni_idx.append(i)
+    if sni_lines:
+        for i, want, got in zip(sni_idx, vlib.run_lines_robust(model, sni_lines)[0], sni_obs):
+            w = " ".join(x.split(":")[0] for x in want.split())
+            if w != got:
+                late.append((i, "cred", "SNI credential cache over the handshake history: SNI callback asked %s, cache model says %s" % (got, w), True))
     # credential model for every case
     cred = vlib.run_lines_robust(model, [c.cred_line() for c in cases])[0]
     tgs_lines, owner = [], []
@@ -98,7 +121,13 @@ def evaluate(run, model, drv, cases, lines):
                 fails.append((i, "oracle", "matching credentials, no loss: requests %s, server handler saw %s, client handler saw %s" % (q, sreq, rsp), False))
             elif sreq != sorted(sreq) and "ns" not in " ".join(c.ops):
                 fails.append((i, "oracle", "requests reached the server handler out of order: %s" % sreq, False))
-    return outs, cred, fails
+    # report against the whole case
+    fails = [(back[i] if tag != "crash" and i < len(back) else i, tag, what, ni) for i, tag, what, ni in fails]
+    fails += late
+    cred0 = {}
+    for j, i in enumerate(back):
+        cred0.setdefault(i, cred[j])
+    return outs0, [cred0.get(i, "") for i in range(len(orig_cases))], fails
 
 
 def norm(h):
@@ -178,6 +207,7 @@ def main(run):
         c.kind = "corpus"
         cases.append(c)
     cases += gen_tls.gen_cases(r, n, run.tier)
+    cases += gen_tls.gen_sni_history(tie.rng_for(run, "c19sni"), run.tier)
     if run.tier == "thorough":
         for k in (2, 3):      # further derived seeds for the random part
             cases += gen_tls.gen_random(tie.rng_for(run, "c19/%d" % k), n)
